@@ -300,50 +300,56 @@ ParsesBack(t, cpp) == LET ts == PrintExpr(t, cpp)  r == Parse(ts, cpp) IN r.t = 
 (***************************************************************************)
 Profile(name) ==
   CASE name = "full" -> [vars |-> {"a", "b", "c"}, bin |-> ArithOps, asg |-> AsgOps, un |-> {"+", "-", "!", "~"}, inc |-> {"++", "--"}]
-    [] name = "rep"  -> [vars |-> {"a", "b"}, bin |-> {"*", "+", "-", "<<", "<", "==", "&", "^", "|", "&&", "||"}, asg |-> {"=", "+="},
+    [] name = "rep"  -> [vars |-> {"a", "b"}, bin |-> {"*", "+", "-", "<<", "<", ">", "==", "&", "^", "|", "&&", "||"}, asg |-> {"=", "+="},
                          un |-> {"-", "!"}, inc |-> {"++"}]
     [] name = "rep1" -> [vars |-> {"a"}, bin |-> {"*", "-", "<<", "<", "==", "&", "|", "&&", "||"}, asg |-> {"="},
                          un |-> {"-", "!"}, inc |-> {"++"}]
 
-RECURSIVE T(_, _, _)
+\* TR(pf, sort, n, root): the trees of that sort with exactly n operators whose ROOT production belongs to one of the
+\* families named in root ("*" = all families).  Sub-expressions are never restricted.  The families only serve to
+\* split a big stratum into parts that separate TLC processes enumerate:
+\*    "bin:<op>" per binary operator, "pcmp", "un", "inc", "asg", "cond", "comma", "cast", "sz", "call"      (sort I)
+\*    "deref", "sub", "mem" (sort L);  "addr", "padd", "pinc", "pasg", "pcond", "pcomma" (sort P);  "leaf"
+RECURSIVE TR(_, _, _, _)
+T(pf, sort, n) == TR(pf, sort, n, {"*"})
 A(pf, n) == T(pf, "L", n) \cup T(pf, "I", n)                       \* any int-valued expression
 Pairs(S1(_), S2(_), m) == UNION {S1(i) \X S2(m - i) : i \in 0..m}
 Triples(S1(_), S2(_), S3(_), m) == UNION {S1(i) \X S2(j) \X S3(m - i - j) : <<i, j>> \in {p \in (0..m) \X (0..m) : p[1] + p[2] <= m}}
 
-T(pf, sort, n) ==
+TR(pf, sort, n, root) ==
   LET P == Profile(pf)
       Ints(i) == A(pf, i)
       Lvs(i)  == T(pf, "L", i)
       Ptrs(i) == T(pf, "P", i)
+      On(f)   == "*" \in root \/ f \in root
   IN
   IF sort = "L" THEN
-       IF n = 0 THEN {Leaf(v) : v \in P.vars}
-       ELSE {Pre("*", x) : x \in Ptrs(n - 1)}
-            \cup {Sub(p[1], p[2]) : p \in Pairs(Ptrs, Ints, n - 1)}
-            \cup (IF n = 1 THEN {Bin(".", Leaf("s"), Leaf("m")), Bin("->", Leaf("q"), Leaf("m"))} ELSE {})
+       IF n = 0 THEN (IF On("leaf") THEN {Leaf(v) : v \in P.vars} ELSE {})
+       ELSE (IF On("deref") THEN {Pre("*", x) : x \in Ptrs(n - 1)} ELSE {})
+            \cup (IF On("sub") THEN {Sub(p[1], p[2]) : p \in Pairs(Ptrs, Ints, n - 1)} ELSE {})
+            \cup (IF n = 1 /\ On("mem") THEN {Bin(".", Leaf("s"), Leaf("m")), Bin("->", Leaf("q"), Leaf("m"))} ELSE {})
   ELSE IF sort = "I" THEN
-       IF n = 0 THEN {Leaf("1")}
-       ELSE {Bin(op, p[1], p[2]) : op \in P.bin, p \in Pairs(Ints, Ints, n - 1)}
-            \cup {Bin(op, p[1], p[2]) : op \in {"==", "<"} \cap P.bin, p \in Pairs(Ptrs, Ptrs, n - 1)}
-            \cup {Pre(op, x) : op \in P.un, x \in Ints(n - 1)}
-            \cup {Pre(op, x) : op \in P.inc, x \in Lvs(n - 1)}
-            \cup {Post(op, x) : op \in P.inc, x \in Lvs(n - 1)}
-            \cup {Bin(op, p[1], p[2]) : op \in P.asg, p \in Pairs(Lvs, Ints, n - 1)}
-            \cup {Cond(p[1], p[2], p[3]) : p \in Triples(Ints, Ints, Ints, n - 1)}
-            \cup {Bin(",", p[1], p[2]) : p \in Pairs(Ints, Ints, n - 1)}
-            \cup {Cast("int", x) : x \in Ints(n - 1)}
-            \cup {SzE(x) : x \in Ints(n - 1) \cup Ptrs(n - 1)}
-            \cup (IF n = 1 THEN {SzT("int"), Call(Leaf("f"), <<>>)} ELSE {})
-            \cup {Call(Leaf("f"), <<x>>) : x \in Ints(n - 1)}
-            \cup {Call(Leaf("f"), <<p[1], p[2]>>) : p \in Pairs(Ints, Ints, n - 1)}
+       IF n = 0 THEN (IF On("leaf") THEN {Leaf("1")} ELSE {})
+       ELSE UNION {IF On("bin:" \o op) THEN {Bin(op, p[1], p[2]) : p \in Pairs(Ints, Ints, n - 1)} ELSE {} : op \in P.bin}
+            \cup (IF On("pcmp") THEN {Bin(op, p[1], p[2]) : op \in {"==", "<"} \cap P.bin, p \in Pairs(Ptrs, Ptrs, n - 1)} ELSE {})
+            \cup (IF On("un") THEN {Pre(op, x) : op \in P.un, x \in Ints(n - 1)} ELSE {})
+            \cup (IF On("inc") THEN {Pre(op, x) : op \in P.inc, x \in Lvs(n - 1)} \cup {Post(op, x) : op \in P.inc, x \in Lvs(n - 1)} ELSE {})
+            \cup (IF On("asg") THEN {Bin(op, p[1], p[2]) : op \in P.asg, p \in Pairs(Lvs, Ints, n - 1)} ELSE {})
+            \cup (IF On("cond") THEN {Cond(p[1], p[2], p[3]) : p \in Triples(Ints, Ints, Ints, n - 1)} ELSE {})
+            \cup (IF On("comma") THEN {Bin(",", p[1], p[2]) : p \in Pairs(Ints, Ints, n - 1)} ELSE {})
+            \cup (IF On("cast") THEN {Cast("int", x) : x \in Ints(n - 1)} ELSE {})
+            \cup (IF On("sz") THEN {SzE(x) : x \in Ints(n - 1) \cup Ptrs(n - 1)} \cup (IF n = 1 THEN {SzT("int")} ELSE {}) ELSE {})
+            \cup (IF On("call") THEN (IF n = 1 THEN {Call(Leaf("f"), <<>>)} ELSE {})
+                                     \cup {Call(Leaf("f"), <<x>>) : x \in Ints(n - 1)}
+                                     \cup {Call(Leaf("f"), <<p[1], p[2]>>) : p \in Pairs(Ints, Ints, n - 1)} ELSE {})
   ELSE \* "P"
-       IF n = 0 THEN {Leaf("p")}
-       ELSE {Pre("&", x) : x \in Lvs(n - 1)}
-            \cup {Bin(op, p[1], p[2]) : op \in {"+", "-"} \cap P.bin, p \in Pairs(Ptrs, Ints, n - 1)}
-            \cup (IF n = 1 THEN {Pre(op, Leaf("p")) : op \in P.inc} \cup {Post(op, Leaf("p")) : op \in P.inc} ELSE {})
-            \cup {Bin("=", Leaf("p"), x) : x \in Ptrs(n - 1)}
-            \cup {Cond(p[1], p[2], p[3]) : p \in Triples(Ints, Ptrs, Ptrs, n - 1)}
-            \cup {Bin(",", p[1], p[2]) : p \in Pairs(Ints, Ptrs, n - 1)}
+       IF n = 0 THEN (IF On("leaf") THEN {Leaf("p")} ELSE {})
+       ELSE (IF On("addr") THEN {Pre("&", x) : x \in Lvs(n - 1)} ELSE {})
+            \cup (IF On("padd") THEN {Bin(op, p[1], p[2]) : op \in {"+", "-"} \cap P.bin, p \in Pairs(Ptrs, Ints, n - 1)} ELSE {})
+            \cup (IF n = 1 /\ On("pinc") THEN {Pre(op, Leaf("p")) : op \in P.inc} \cup {Post(op, Leaf("p")) : op \in P.inc} ELSE {})
+            \cup (IF On("pasg") THEN {Bin("=", Leaf("p"), x) : x \in Ptrs(n - 1)} ELSE {})
+            \cup (IF On("pcond") THEN {Cond(p[1], p[2], p[3]) : p \in Triples(Ints, Ptrs, Ptrs, n - 1)} ELSE {})
+            \cup (IF On("pcomma") THEN {Bin(",", p[1], p[2]) : p \in Pairs(Ints, Ptrs, n - 1)} ELSE {})
 
 (***************************************************************************)
 (* Statements.  Every expression e of sort int is placed as                *)
@@ -358,7 +364,8 @@ StmtsOf(e, sort, ctxs) ==
        \cup (IF "ret" \in ctxs THEN {Ret(e)} ELSE {})
        \cup (IF "arg" \in ctxs THEN {Call(Leaf("f"), <<e, Leaf("1")>>)} ELSE {})
 
-Stmts(pf, n, ctxs) == UNION {StmtsOf(e, "I", ctxs) : e \in A(pf, n)} \cup UNION {StmtsOf(e, "P", ctxs) : e \in T(pf, "P", n)}
+Stmts(pf, n, ctxs, root) == UNION {StmtsOf(e, "I", ctxs) : e \in TR(pf, "L", n, root) \cup TR(pf, "I", n, root)}
+                            \cup UNION {StmtsOf(e, "P", ctxs) : e \in TR(pf, "P", n, root)}
 
 \* the sort of a generated tree (needed to place a subtree into a statement of its own)
 RECURSIVE SortOf(_)
@@ -438,11 +445,12 @@ BigSample(pf, perFamily) ==
 Mode == IF "MODE" \in DOMAIN IOEnv THEN IOEnv.MODE ELSE "none"
 IsCpp == IOEnv.LANG = "cpp"
 \* IOEnv.PLAN: ndjson, the strata of this run:
-\*   [kind |-> "exact", pf, n, ctx]   all statements (contexts ctx) over all well-typed trees of profile pf with exactly n operators
+\*   [kind |-> "exact", pf, n, ctx, fam]   all statements (contexts ctx) over all well-typed trees of profile pf with exactly n
+\*                                    operators whose root production is in one of the families fam (<<"*">> = all)
 \*   [kind |-> "big", pf, n]          a random sample (TLC's -seed) of n trees per root family, 3 to 6 operators, as  x = e ;
 Plan == ndJsonDeserialize(IOEnv.PLAN)
 \*   [kind |-> "unary2", pf]         all chains of two unary-level operators of profile pf, as  x = e ; / y = e ;
-CasesOf(st) == IF st.kind = "exact" THEN Stmts(st.pf, st.n, {st.ctx[i] : i \in DOMAIN st.ctx})
+CasesOf(st) == IF st.kind = "exact" THEN Stmts(st.pf, st.n, {st.ctx[i] : i \in DOMAIN st.ctx}, {st.fam[i] : i \in DOMAIN st.fam})
                ELSE IF st.kind = "unary2" THEN {Alone(e) : e \in UnaryChains(st.pf)}
                ELSE {Bin("=", Leaf("x"), e) : e \in BigSample(st.pf, st.n)}
 AllCases == UNION {CasesOf(Plan[i]) : i \in DOMAIN Plan}
